@@ -240,6 +240,19 @@ def items(tier, rng):
     # Rows/costs are kept only if SOME right-hand side gives a fractional root relaxation with all integer variables in [0,1] (the situation
     # in which the solver considers clamping); the right-hand side itself stays symbolic.
     cells += binary_looking_cells(random.Random(rng.randrange(1 << 30)), 30 if q else 240)
+    # named cells: structures on which a wrong binary detection / leaf test / incumbent test is known to matter (right-hand sides stay
+    # symbolic), in every placement of the variable roles - a deterministic anchor next to the seeded families
+    base_named = [([[-2, 1, -1], [-2, -2, 0]], [3, -1, 2], [1, 3, 1], [0, 1]),      # narrow int, wide int, bounded continuous
+                  ([[5, -2]], [-2, 1], 1, [0, 1]), ([[-1, 2], [3, -2]], [4, 4], 1, [0, 1]),   # all-binary, leaf with a tight row
+                  ([[-2, -1]], [1, 2], 3, [0]), ([[2, 2]], [1, 1], 3, [0, 1])]            # mixed with a free continuous variable; fractional root
+    for (rows, c, U, ints) in base_named:
+        n = len(c)
+        for perm in (itertools.permutations(range(n)) if n == 3 else [tuple(range(n)), tuple(reversed(range(n)))]):
+            pr = [[r[perm[j]] for j in range(n)] for r in rows]
+            pc = [c[perm[j]] for j in range(n)]
+            pU = [U[perm[j]] for j in range(n)] if isinstance(U, list) else U
+            pints = sorted(j for j in range(n) if perm[j] in ints)
+            cells.append((pr, pc, pU, pints))
     for ci, (rows, c, U, ints) in enumerate(cells):
         for minimize in ((True, False) if ci % 2 == 0 else (rng.random() < 0.5,)):
             base = {"rows": rows, "c": c, "U": U, "integers": ints, "minimize": minimize}
